@@ -16,9 +16,9 @@
 //    from the cluster.
 
 mod worker;
-pub(crate) use worker::{Cluster, ClusterNeatDebug, use_keyspace_result};
 #[cfg(scylla_verif)]
 pub(crate) use worker::verif as worker_verif;
+pub(crate) use worker::{Cluster, ClusterNeatDebug, use_keyspace_result};
 
 mod state;
 pub use state::ClusterState;
